@@ -146,6 +146,18 @@ fn keyref_ge(a: &KeyRef, b: &KeyRef) -> (r: bool)
     ensures r == !kt_lt(a.key@, a.timestamp, b.key@, b.timestamp),
 { unimplemented!() }
 #[verifier::external_body]
+fn keyref_gt(a: &KeyRef, b: &KeyRef) -> (r: bool)
+    ensures r == kt_lt(b.key@, b.timestamp, a.key@, a.timestamp),
+{ unimplemented!() }
+#[verifier::external_body]
+fn keyref_le(a: &KeyRef, b: &KeyRef) -> (r: bool)
+    ensures r == !kt_lt(b.key@, b.timestamp, a.key@, a.timestamp),
+{ unimplemented!() }
+#[verifier::external_body]
+fn keyref_lt(a: &KeyRef, b: &KeyRef) -> (r: bool)
+    ensures r == kt_lt(a.key@, a.timestamp, b.key@, b.timestamp),
+{ unimplemented!() }
+#[verifier::external_body]
 fn bytes_eq(a: &[u8], b: &[u8]) -> (r: bool)
     ensures r == (a@ == b@),
 { unimplemented!() }
@@ -205,8 +217,12 @@ proof fn lemma_first_ge_decides(s: Seq<Ent>, k: Seq<u8>, t: u64, p: int)
 impl Block {
 //@ extract sst/src/block.rs | impl Block :: fn load
 //@ ret r
-//@ rewrite X9 `if kr >= target {` => `if keyref_ge(&kr, &target) {`
-//@ rewrite X9 `if kvr.key == key {` => `if bytes_eq(kvr.key, key) {`
+//@ rewrite-re? X9 `if kr >= target \{` => `if keyref_ge(&kr, &target) {`
+//@ rewrite-re? X9 `if kr > target \{` => `if keyref_gt(&kr, &target) {`
+//@ rewrite-re? X9 `if kr <= target \{` => `if keyref_le(&kr, &target) {`
+//@ rewrite-re? X9 `if kr < target \{` => `if keyref_lt(&kr, &target) {`
+//@ rewrite-re? X9 `if kvr\.key == key \{` => `if bytes_eq(kvr.key, key) {`
+//@ rewrite-re? X9 `if kvr\.key != key \{` => `if !bytes_eq(kvr.key, key) {`
 //@ rewrite X12 `kvr.value.as_ref().map(|v| v.to_vec())` => `opt_to_vec(&kvr.value)`
 //@ pre <<
         sorted(self.ents()),
@@ -224,7 +240,7 @@ impl Block {
                 cursor.wf(), cursor.ents() == self.ents(), sorted(self.ents()),
                 target.key@ == key@, target.timestamp == timestamp,
                 0 <= cursor.pos() <= cursor.ents().len(),
-                forall|i: int| 0 <= i < cursor.pos() ==> kt_lt(#[trigger] cursor.ents()[i].key, cursor.ents()[i].ts, key@, timestamp),
+                forall|i: int| 0 <= i < cursor.pos() ==> kt_lt(#[trigger] cursor.ents()[i].key, cursor.ents()[i].ts, key@, timestamp), /* contract-inv */
             ensures
                 cursor.wf(), cursor.ents() == self.ents(),
                 0 <= cursor.pos() <= cursor.ents().len(),
@@ -330,8 +346,12 @@ impl SstCursor {
 impl Sst {
 //@ extract sst/src/lib.rs | impl Sst<W> :: fn load
 //@ ret r
-//@ rewrite X9 `if kr >= target {` => `if keyref_ge(&kr, &target) {`
-//@ rewrite X9 `if kvr.key == key {` => `if bytes_eq(kvr.key, key) {`
+//@ rewrite-re? X9 `if kr >= target \{` => `if keyref_ge(&kr, &target) {`
+//@ rewrite-re? X9 `if kr > target \{` => `if keyref_gt(&kr, &target) {`
+//@ rewrite-re? X9 `if kr <= target \{` => `if keyref_le(&kr, &target) {`
+//@ rewrite-re? X9 `if kr < target \{` => `if keyref_lt(&kr, &target) {`
+//@ rewrite-re? X9 `if kvr\.key == key \{` => `if bytes_eq(kvr.key, key) {`
+//@ rewrite-re? X9 `if kvr\.key != key \{` => `if !bytes_eq(kvr.key, key) {`
 //@ rewrite X12 `kvr.value.as_ref().map(|v| v.to_vec())` => `opt_to_vec(&kvr.value)`
 //@ pre <<
         sorted(self.ents()), self.filter_ok(),
@@ -349,7 +369,7 @@ impl Sst {
                 cursor.wf(), cursor.ents() == self.ents(), sorted(self.ents()),
                 target.key@ == key@, target.timestamp == timestamp,
                 0 <= cursor.pos() <= cursor.ents().len(),
-                forall|i: int| 0 <= i < cursor.pos() ==> kt_lt(#[trigger] cursor.ents()[i].key, cursor.ents()[i].ts, key@, timestamp),
+                forall|i: int| 0 <= i < cursor.pos() ==> kt_lt(#[trigger] cursor.ents()[i].key, cursor.ents()[i].ts, key@, timestamp), /* contract-inv */
             ensures
                 cursor.wf(), cursor.ents() == self.ents(),
                 0 <= cursor.pos() <= cursor.ents().len(),
